@@ -31,6 +31,7 @@ func Lock(site int32, m *sync.Mutex) {
 func Unlock(m *sync.Mutex) {
 	m.Unlock()
 	wakeLock(m)
+	Y(siteUnlock)
 }
 
 func WLock(site int32, m *sync.RWMutex) {
@@ -53,6 +54,7 @@ func WLock(site int32, m *sync.RWMutex) {
 func WUnlock(m *sync.RWMutex) {
 	m.Unlock()
 	wakeLock(m)
+	Y(siteUnlock)
 }
 
 func RLock(site int32, m *sync.RWMutex) {
@@ -75,7 +77,13 @@ func RLock(site int32, m *sync.RWMutex) {
 func RUnlock(m *sync.RWMutex) {
 	m.RUnlock()
 	wakeLock(m)
+	Y(siteUnlock)
 }
+
+// siteUnlock marks the preemption point that follows every unlock: code that
+// goes on to touch shared state after releasing its lock is exactly what a
+// schedule must be able to interrupt.
+const siteUnlock = -2
 
 func wakeLock(m any) {
 	s := cur.Load()
